@@ -84,7 +84,23 @@ def jobs(ctx):
     out = []
 
     def job(name, b, src, enforce, replace, canaries=1, expect=(r'postcondition',), entry='harness'):
-        out.append(Job('handles/' + name, props, src, entry, enforce=enforce, replace=replace, funcs=b if isinstance(b, list) else [b], canaries=canaries,
+        bl = b if isinstance(b, list) else [b]
+        # a new private helper the body was refactored into (same file) is extracted with the unit's rules and verified inline (vf.cxx2c.auto_helpers)
+        try:
+            from vf.cxx2c import auto_helpers
+            declared = set(re.findall(r'^\s*(?:static\s+|inline\s+)*(?:unsigned\s+|const\s+)*\w+[\s\*]+(\w+)\s*\(', src, flags=re.M)) | set(re.findall(r'#define\s+(\w+)\(', src))
+            defs, hb = auto_helpers(repo, bl[0].file, None, src, declared, lambda hn, ht, refs: rw(hn, refs=['e', 'callback', 'caller'] + refs, omethods=['CallInline', 'DecRef', 'Here', 'StoreCallback', 'Submit']).rewrite(ht),
+                                    ctype=lambda t: 'Core*' if re.sub(r'<.*>', '', t).split('::')[-1].rstrip('*&') in ('auto', 'Core', 'BaseCore', 'InlineCore', 'UniqueCore', 'SharedCore', 'ResultCore') and t[-1:] in '*&' else None)
+            if defs:
+                m_sig = re.search(r'^[^\n;]*\b%s\s*\([^\n;{]*\)\s*$' % re.escape(enforce), src, flags=re.M)
+                if m_sig:
+                    src = src[:m_sig.start()] + defs.replace('static Core* ', 'static Core* ').replace('(void)', '(Handle* self)') + src[m_sig.start():]
+                    for hbody in hb:
+                        src = re.sub(r'(?<![\w.>])%s\(\s*\)' % re.escape(hbody.name), hbody.name + '(self)', src)
+                    bl = bl + hb
+        except ExtractionBreak:
+            pass
+        out.append(Job('handles/' + name, props, src, entry, enforce=enforce, replace=replace, funcs=bl, canaries=canaries,
                        expect=list(expect), meta={'fn': name}))
 
     # ---- detail::Start x2 -----------------------------------------------------------------------------------------
